@@ -47,6 +47,12 @@ fn main() {
             let idx: u64 = args.get(4).and_then(|s| s.parse().ok()).unwrap_or(0);
             let seed: u64 = args.get(5).and_then(|s| s.parse().ok()).unwrap_or(1);
             let mut rng = rng::Rng::for_case(seed, &id, &phase, idx);
+            if id == "C19" && idx % 4 == 0 {
+                if let Ok(g) = props::c12::grammar() {
+                    println!("{}", g.program(&mut rng, 6 + (idx % 7) as u32));
+                }
+                return;
+            }
             if id == "C12" && phase == "grammar" {
                 match props::c12::grammar() {
                     Ok(g) => println!("{}", g.program(&mut rng, 6 + (idx % 7) as u32)),
